@@ -119,6 +119,7 @@ fn dispatch(mode: &str, line: &str) -> String {
         "retain" => tree::retain(line),
         "ovw" => opts::ovw(line),
         "into" => opts::into(line),
+        "psec" => opts::psec(line),
         _ => panic!("unknown mode {mode}"),
     }
 }
